@@ -599,3 +599,262 @@ def analyse_scenarios(repo: str, n: int) -> List[dict]:
         explore(prog, body, cfg, max_paths=20000, sink=lambda p: recs.append(judge_scenario(prog, S, name, p)))
         out.extend(recs)
     return out
+
+
+# --------------------------------------------------------------------------- grammar-derivable sequences beyond the exhaustive bound
+def derivable_sequences(n: int) -> List[Tuple[str, ...]]:
+    """All token-type sequences of exactly n tokens that the documented grammar derives (memoised enumeration)."""
+    from functools import lru_cache
+
+    @lru_cache(None)
+    def equal(k):
+        out = set(add(k))
+        for i in range(1, k - 1):
+            for a in equal(i):
+                for b in add(k - 1 - i):
+                    out.add(a + ("Equal",) + b)
+        return frozenset(out)
+
+    @lru_cache(None)
+    def add(k):
+        out = set(mult(k))
+        for i in range(1, k - 1):
+            for a in add(i):
+                for b in mult(k - 1 - i):
+                    for op in ("Plus", "Minus"):
+                        out.add(a + (op,) + b)
+        return frozenset(out)
+
+    @lru_cache(None)
+    def mult(k):
+        out = set(exp(k))
+        for i in range(1, k - 1):
+            for a in mult(i):
+                for b in exp(k - 1 - i):
+                    for op in ("Multiply", "Divide"):
+                        out.add(a + (op,) + b)
+        return frozenset(out)
+
+    @lru_cache(None)
+    def exp(k):
+        out = set(unary(k))
+        for i in range(1, k - 1):
+            for a in unary(i):
+                for b in unary(k - 1 - i):
+                    out.add(a + ("Exponent",) + b)
+        return frozenset(out)
+
+    @lru_cache(None)
+    def unary(k):
+        out = set(prefix(k))
+        if k >= 2:
+            for a in prefix(k - 1):
+                out.add(("Minus",) + a)
+        return frozenset(out)
+
+    @lru_cache(None)
+    def prefix(k):
+        out = set(factors(k))
+        if k == 1:
+            out.add(("Constant",))
+        if k == 2:
+            out.add(("Constant", "Factorial"))
+        if k >= 2:
+            for a in factors(k - 1):
+                out.add(("Constant",) + a)
+        return frozenset(out)
+
+    @lru_cache(None)
+    def factors(k):
+        out = set(factorlist(k))
+        for m in range(1, k - 1):
+            for a in factorlist(m):
+                for b in unary(k - 1 - m):
+                    out.add(a + ("Exponent",) + b)
+        return frozenset(out)
+
+    @lru_cache(None)
+    def factorlist(k):
+        out = set(factor(k))
+        for i in range(1, k):
+            for a in factor(i):
+                for b in factorlist(k - i):
+                    out.add(a + b)
+        return frozenset(out)
+
+    @lru_cache(None)
+    def factor(k):
+        out = set()
+        if k == 1:
+            out.add(("Variable",))
+        if k >= 4:
+            for a in add(k - 3):
+                out.add(("Function", "OpenParen") + a + ("CloseParen",))
+        if k >= 3:
+            for a in add(k - 2):
+                out.add(("OpenParen",) + a + ("CloseParen",))
+        return frozenset(out)
+
+    return sorted(equal(n))
+
+
+def _valid_worker(task):
+    repo, seqs = task
+    prog, S = _setup(repo)
+    types = token_types(prog)
+    pcls = prog.cls("ExpressionParser")
+    m_parse = prog.func("parser", "ExpressionParser.parse")
+    out = []
+    n_ok = 0
+    for seq in seqs:
+        def body(it: Interp, seq=seq):
+            it.token_counts = {}
+            install_token_model(it, types, len(seq), ["sgn"])
+            it.text_types = {"T": [it.new_char(frozenset([types[t]])) for t in seq]}
+            parser = it.instantiate(pcls, [], {})
+            return it.call_function(m_parse, [parser, "T"], {})
+        cfg = {"max_updepth": 0, "hooks": S.hooks(), "max_steps": 40000, "max_inline": 80}
+        res = explore(prog, body, cfg, max_paths=8)
+        toks = [(t, i) for i, t in enumerate(seq)]
+        status, ref = reference(toks)
+        for p in res:
+            it = p.interp
+            if any(k.startswith("malformed-number") and v for k, v in it.atoms.items()):
+                continue
+            rec = {"tokens": list(seq), "surface": surface(toks), "n": len(seq)}
+            if p.outcome != "return" or not isinstance(p.value, Node):
+                rec["problem"] = f"the grammar derives this string but the parser answers {p.outcome} {p.exc or p.note}"
+                rec["exc"] = p.exc.exc if p.exc else None
+                rec["contract_ok"] = exc_in_contract(prog, p.exc.exc) if p.exc else None
+                out.append(rec)
+                continue
+            hv = HeapView(it, S.optable)
+            term = hv.term(p.value.cid, "cur")
+            eq = terms_equal(term, ref)
+            if eq is True:
+                n_ok += 1
+                continue
+            rec["problem"] = "value differs" if eq is False else "undecided"
+            rec["term_str"] = _tstr(term)
+            rec["ref_term_str"] = _tstr(ref)
+            rec["value_equal"] = eq
+            out.append(rec)
+    return n_ok, out
+
+
+def analyse_valid(repo: str, n: int) -> Tuple[int, List[dict]]:
+    """Interpret the parser on every grammar-derivable sequence of exactly n tokens; returns (#agreeing, disagreements)."""
+    import json
+    from .report import VERIF
+    prog, S = _setup(repo)
+    digest = source_digest(prog, extra=f"valid{n}" + _self_digest())
+    cache = VERIF / ".cache" / f"validcases{n}-{digest}.json"
+    if cache.exists():
+        try:
+            d = json.loads(cache.read_text())
+            return d["ok"], d["bad"]
+        except Exception:
+            pass
+    seqs = derivable_sequences(n)
+    chunk = max(50, len(seqs) // 64)
+    tasks = [(str(prog.repo), seqs[i:i + chunk]) for i in range(0, len(seqs), chunk)]
+    nproc = min(int(os.environ.get("VERIF_JOBS", "16")), os.cpu_count() or 1)
+    ctx = mp.get_context("fork")
+    with ctx.Pool(nproc) as pool:
+        res = pool.map(_valid_worker, tasks, chunksize=1)
+    ok = sum(r[0] for r in res)
+    bad = [x for r in res for x in r[1]]
+    try:
+        cache.parent.mkdir(exist_ok=True)
+        if str(prog.repo) == "/repo":
+            for old in cache.parent.glob(f"validcases{n}-*.json"):
+                old.unlink()
+        cache.write_text(json.dumps({"ok": ok, "bad": bad}))
+    except Exception:
+        pass
+    return ok, bad
+
+
+# --------------------------------------------------------------------------- near-miss sequences beyond the exhaustive bound
+def near_miss_sequences(n: int) -> List[Tuple[str, ...]]:
+    """Token sequences of length n obtained from a derivable sequence of length n+1 by deleting one token, or of
+    length n by replacing its last token, that the grammar does NOT derive (truncated / malformed inputs)."""
+    good_n = set(derivable_sequences(n))
+    out = set()
+    for s in derivable_sequences(n + 1):
+        for i in range(len(s)):
+            t = s[:i] + s[i + 1:]
+            if t not in good_n:
+                out.add(t)
+    for s in good_n:
+        for rep in ("Plus", "CloseParen", "OpenParen", "Exponent", "Factorial", "Equal"):
+            t = s[:-1] + (rep,)
+            if t not in good_n:
+                out.add(t)
+    return sorted(out)
+
+
+def _nearmiss_worker(task):
+    repo, seqs = task
+    prog, S = _setup(repo)
+    types = token_types(prog)
+    pcls = prog.cls("ExpressionParser")
+    m_parse = prog.func("parser", "ExpressionParser.parse")
+    bad = []
+    n_ok = 0
+    for seq in seqs:
+        def body(it: Interp, seq=seq):
+            it.token_counts = {}
+            install_token_model(it, types, len(seq), ["sgn"])
+            it.text_types = {"T": [it.new_char(frozenset([types[t]])) for t in seq]}
+            parser = it.instantiate(pcls, [], {})
+            return it.call_function(m_parse, [parser, "T"], {})
+        cfg = {"max_updepth": 0, "hooks": S.hooks(), "max_steps": 40000, "max_inline": 80}
+        for p in explore(prog, body, cfg, max_paths=8):
+            toks = [(t, i) for i, t in enumerate(seq)]
+            if p.outcome == "raise" and exc_in_contract(prog, p.exc.exc):
+                n_ok += 1
+                continue
+            rec = {"tokens": list(seq), "surface": surface(toks), "n": len(seq), "outcome": p.outcome}
+            if p.outcome == "raise":
+                rec["exc"] = p.exc.exc
+                rec["site"] = p.exc.site
+                rec["detail"] = p.exc.detail[:160]
+            elif p.outcome == "bound":
+                rec["note"] = p.note
+            else:
+                rec["note"] = "accepted although the grammar does not derive it"
+            bad.append(rec)
+    return n_ok, bad
+
+
+def analyse_near_misses(repo: str, n: int) -> Tuple[int, List[dict]]:
+    import json
+    from .report import VERIF
+    prog, S = _setup(repo)
+    digest = source_digest(prog, extra=f"nearmiss{n}" + _self_digest())
+    cache = VERIF / ".cache" / f"nearmiss{n}-{digest}.json"
+    if cache.exists():
+        try:
+            d = json.loads(cache.read_text())
+            return d["ok"], d["bad"]
+        except Exception:
+            pass
+    seqs = near_miss_sequences(n)
+    chunk = max(50, len(seqs) // 64)
+    tasks = [(str(prog.repo), seqs[i:i + chunk]) for i in range(0, len(seqs), chunk)]
+    nproc = min(int(os.environ.get("VERIF_JOBS", "16")), os.cpu_count() or 1)
+    ctx = mp.get_context("fork")
+    with ctx.Pool(nproc) as pool:
+        res = pool.map(_nearmiss_worker, tasks, chunksize=1)
+    ok = sum(r[0] for r in res)
+    bad = [x for r in res for x in r[1]]
+    try:
+        cache.parent.mkdir(exist_ok=True)
+        if str(prog.repo) == "/repo":
+            for old in cache.parent.glob(f"nearmiss{n}-*.json"):
+                old.unlink()
+        cache.write_text(json.dumps({"ok": ok, "bad": bad}))
+    except Exception:
+        pass
+    return ok, bad
